@@ -947,7 +947,7 @@ impl Check for C15 {
 		CheckInfo {
 			id: "C15",
 			level: "exploration",
-			rule: "five streams. sched (1/24): a gameplay task adds a listener, a spatial track bound to it (optionally nested) and a sound while an audio task runs callbacks under seeded random schedules - the track must be audible afterwards; turn (1/12): the listener turns between two yaw angles given by quaternions of either sign (q / -q), instantly or over a few internal buffers, with the emitter on its right: every frame favours the right ear; nested (1/6): a spatial track (listener B) inside - directly or through a plain track - a spatial track (listener A) with a plain track below it, each with a FromListenerDistance probe, either listener dropped at a seeded callback; history (1/6): seeded history over {add listener (the first one gets a spatial track, optionally with a nested non-spatial child, each with a FromListenerDistance probe parameter and a DC sound), drop the listener, tween the listener position, tween the emitter position, stop the sound with a fade (it must reach Stopped with or without a listener), callback} at a seeded internal buffer size, 30% on a pass-through track (no attenuation function, spatialization strength 0: silent without a listener like any other spatial track) - simulated on the device with a per-chunk reference of both positions; geometry (2/3): generated listener pose, emitter position, distance range (proper, equal, inverted, zero-based), attenuation curve, strength, edge classes (listener and emitter coincident; emitter exactly on one of the listener's ears; the same orientation given as a quaternion that is not of unit length), rendered through the manager and related to a second rendering (farther along the same ray, mirrored, rigidly moved, stereo input, the same scene with a linear roll-off) - plain input generation evaluated as cross-run invariants; non-trivial = every case renders; distinct = hash of the outputs / of the per-callback (listener present, chunks) sequence",
+			rule: "five streams. sched (1/24): a gameplay task adds a listener, a spatial track bound to it (optionally nested) and a sound while an audio task runs callbacks under seeded random schedules - the track must be audible afterwards, and the first frame ever heard of the sound (a ramp) is its first frame: a track that ran without its listener consumes the sound in silence; turn (1/12): the listener turns between two yaw angles given by quaternions of either sign (q / -q), instantly or over a few internal buffers, with the emitter on its right: every frame favours the right ear; nested (1/6): a spatial track (listener B) inside - directly or through a plain track - a spatial track (listener A) with a plain track below it, each with a FromListenerDistance probe, either listener dropped at a seeded callback; history (1/6): seeded history over {add listener (the first one gets a spatial track, optionally with a nested non-spatial child, each with a FromListenerDistance probe parameter and a DC sound), drop the listener, tween the listener position, tween the emitter position, stop the sound with a fade (it must reach Stopped with or without a listener), callback} at a seeded internal buffer size, 30% on a pass-through track (no attenuation function, spatialization strength 0: silent without a listener like any other spatial track) - simulated on the device with a per-chunk reference of both positions; geometry (2/3): generated listener pose, emitter position, distance range (proper, equal, inverted, zero-based), attenuation curve, strength, edge classes (listener and emitter coincident; emitter exactly on one of the listener's ears; the same orientation given as a quaternion that is not of unit length), rendered through the manager and related to a second rendering (farther along the same ray, mirrored, rigidly moved, stereo input, the same scene with a linear roll-off) - plain input generation evaluated as cross-run invariants; non-trivial = every case renders; distinct = hash of the outputs / of the per-callback (listener present, chunks) sequence",
 			assumptions: vec![
 				"the geometric relations (monotonicity, ear gains, mirror, rigid motion, stereo pass-through) are input-generation checks, not schedule- or fault-dependent; they are included because the same harness renders them, and are stated as such".into(),
 				"tolerances: 1e-4 on gains, 2e-3 / 3e-3 for mirrored / moved scenes (f32 quaternion arithmetic), rigid-motion comparison skipped within 1e-3 of a distance limit".into(),
